@@ -22,7 +22,10 @@ WRITERS = ('container:Container.pack_all_loose', 'container:Container.add_stream
 class RangeMachine(Machine):
     """R1: for the object processed in an iteration, row['offset'] is the handle's tell() taken before the object's first
     write (no write/seek in between), row['length'] is tell() - row['offset'] taken after its last write, and the row is
-    staged with both.  State = (off, wrote, length)  off in unset/fresh/used/stale; length in unset/ok/stale."""
+    staged with both.  State = (off, wrote, length, key source, fresh)  off in unset/fresh/used/stale; length in unset/ok/stale;
+    fresh = local names that hold a tell() of the pack handle not invalidated by a later write/seek/truncate (carried across
+    iterations and along exception edges: a write interrupted by an exception that a handler swallows invalidates them too)."""
+    edge_kinds = ('n', 'e')
 
     def __init__(self, ctx, g, rule):
         self.ctx = ctx
@@ -36,7 +39,7 @@ class RangeMachine(Machine):
         self.lengths = 0
 
     def initial(self, g):
-        return [('unset', False, 'unset', 'unset')]
+        return [('unset', False, 'unset', 'unset', frozenset())]
 
     def _is_tell(self, e, fr):
         if isinstance(e, ast.Call) and isinstance(e.func, ast.Attribute) and e.func.attr == 'tell':
@@ -90,11 +93,18 @@ class RangeMachine(Machine):
         return 'copied'
 
     def transfer(self, node, st, g):
-        off, wrote, ln, ksrc = st
+        off, wrote, ln, ksrc, fresh = st
         viol = []
         if node.id in self.heads:
-            return [('unset', False, 'unset', 'unset')]
+            return [('unset', False, 'unset', 'unset', fresh)]
         a = node.ast
+        if node.frame is self.top and node.kind == 'stmt' and isinstance(a, (ast.Assign, ast.AnnAssign, ast.AugAssign)):
+            tgt0 = a.targets[0] if isinstance(a, ast.Assign) and len(a.targets) == 1 else getattr(a, 'target', None)
+            if isinstance(tgt0, ast.Name):
+                if isinstance(a, (ast.Assign, ast.AnnAssign)) and a.value is not None and self._is_tell(a.value, node.frame):
+                    fresh = fresh | {tgt0.id}
+                else:
+                    fresh = fresh - {tgt0.id}
         # provenance of row['hashkey']
         if node.frame is self.top and node.kind == 'stmt' and isinstance(a, ast.Assign):
             tg = a.targets[0]
@@ -111,12 +121,13 @@ class RangeMachine(Machine):
                         viol.append(Violation(self.rule, node, st, "row['offset'] is taken from tell() after bytes of this object were already written: the recorded range starts inside the object"))
                     off = 'fresh'
                 elif isinstance(a.value, ast.Name):
-                    # a local that holds a tell() taken earlier in this iteration with no write in between is equivalent
-                    v = last_assignment(a.value.id, node.frame.fn, a.lineno)
-                    if v is not None and self._is_tell(v, node.frame) and not wrote:
+                    # a local that holds a tell() with no write/seek/truncate on the handle since (on this path) is equivalent
+                    if a.value.id in fresh and not wrote:
                         off = 'fresh'
                     else:
-                        viol.append(Violation(self.rule, node, st, f"row['offset'] = `{norm(a.value)}` is not the pack handle's position right before this object is written"))
+                        viol.append(Violation(self.rule, node, st, f"row['offset'] = `{norm(a.value)}` is not the pack handle's position right before this object is written: "
+                                              "the handle was written/moved since that value was taken (e.g. by an earlier object whose write was interrupted by a tolerated exception), "
+                                              "or it is not a tell() of the handle at all"))
                         off = 'fresh'
                 else:
                     viol.append(Violation(self.rule, node, st, f"row['offset'] = `{norm(a.value)}` is not the pack handle's tell()"))
@@ -124,8 +135,7 @@ class RangeMachine(Machine):
             elif key == 'length':
                 self.lengths += 1
                 v = a.value
-                shape = isinstance(v, ast.BinOp) and isinstance(v.op, ast.Sub) and (self._is_tell(v.left, node.frame) or (isinstance(v.left, ast.Name) and last_assignment(v.left.id, node.frame.fn, a.lineno) is not None
-                                                                                                                       and self._is_tell(last_assignment(v.left.id, node.frame.fn, a.lineno), node.frame))) \
+                shape = isinstance(v, ast.BinOp) and isinstance(v.op, ast.Sub) and (self._is_tell(v.left, node.frame) or (isinstance(v.left, ast.Name) and v.left.id in fresh)) \
                     and isinstance(v.right, ast.Subscript) and isinstance(v.right.slice, ast.Constant) and v.right.slice.value == 'offset' and norm(v.right.value) == norm(a.targets[0].value)
                 if not shape:
                     viol.append(Violation(self.rule, node, st, f"row['length'] = `{norm(v)}` is not tell() - row['offset'] on the pack handle"))
@@ -133,6 +143,8 @@ class RangeMachine(Machine):
                     viol.append(Violation(self.rule, node, st, "row['length'] is computed although row['offset'] was not taken from the handle in this iteration"))
                 ln = 'ok'
         for e in self.E.of(node):
+            if e[0] in ('H_WRITE', 'H_SEEK', 'H_TRUNCATE') and is_pack_write_handle(self.K, e[1]):
+                fresh = frozenset()
             if e[0] == 'H_WRITE' and is_pack_write_handle(self.K, e[1]):
                 wrote = True
                 if off == 'fresh':
@@ -156,7 +168,7 @@ class RangeMachine(Machine):
                                       "appended the bytes: if the two passes do not read the same bytes (stream not at position 0, short read) the indexed range does not hash to its key"))
             if ksrc == 'unset':
                 viol.append(Violation(self.rule, node, st, "a row is staged without row['hashkey'] assigned in this iteration"))
-        return [(off, wrote, ln, ksrc)] + viol
+        return [(off, wrote, ln, ksrc, fresh)] + viol
 
 
 def run(ctx):
